@@ -68,11 +68,28 @@ def _match_brace(s, i):
     return len(s) - 1
 
 
+STRUCTS = {}     # (crate, Name) -> list of field type strings
+
+
 def parse_expanded(path, crate):
     """Returns (enums: {modpath::Name: EnumDef}, reexports: list of (src_path, alias or '*'))."""
     src = _strip(open(path).read())
     enums = {}
     reexports = []
+    for m in re.finditer(r"\bstruct\s+(\w+)\s*(?:<[^{(;]*>)?\s*(\{|\()", src):
+        b = m.end() - 1
+        e = _match_brace(src, b) if src[b] == "{" else _match_paren(src, b)
+        body = src[b + 1:e]
+        fields = []
+        for part in _split0(body):
+            part = re.sub(r"#\s*\[[^\]]*(\[[^\]]*\][^\]]*)*\]", " ", part, flags=re.S).strip()
+            part = re.sub(r"^pub(\([^)]*\))?\s+", "", part)
+            if not part: continue
+            if src[b] == "{":
+                if ":" not in part: continue
+                part = part.split(":", 1)[1].strip()
+            fields.append(part)
+        STRUCTS[(crate, m.group(1))] = fields
 
     def walk(text, mod):
         pos = 0
@@ -107,6 +124,29 @@ def parse_expanded(path, crate):
 
     walk(src, [])
     return enums, reexports
+
+
+def _match_paren(s, i):
+    depth = 0
+    for j in range(i, len(s)):
+        if s[j] == "(": depth += 1
+        elif s[j] == ")":
+            depth -= 1
+            if depth == 0: return j
+    return len(s) - 1
+
+
+def _split0(body):
+    depth, cur, parts = 0, [], []
+    for i, ch in enumerate(body):
+        if ch in "([{<": depth += 1
+        elif ch in ")]}" or (ch == ">" and body[i - 1] not in "-="): depth -= 1
+        if ch == "," and depth == 0:
+            parts.append("".join(cur)); cur = []
+        else:
+            cur.append(ch)
+    parts.append("".join(cur))
+    return parts
 
 
 def _variants(body, d):
